@@ -112,3 +112,13 @@ Definition monitor_case (c : case) : bool :=
 Definition monitor_detail (c : case) :=
   let '(st, tr, r, av) := snd c in
   (protocol_ok tr, one_termination tr, death_ok tr, killer_ok_from [] None tr, decision_ok (fst c) tr, result_ok (nchars_of (fst c)) (Z.of_nat (length (c_units (fst c)))) tr r av).
+
+(* per-property monitors *)
+Definition fin (c : case) : bool := match fst (fst (fst (snd c))) with RFinished => true | _ => false end.
+Definition tr_of (c : case) : list ev := snd (fst (fst (snd c))).
+Definition monitor_c03 (c : case) : bool := negb (fin c) || (protocol_ok (tr_of c) && one_termination (tr_of c)).
+Definition monitor_c08 (c : case) : bool := negb (fin c) || (death_ok (tr_of c) && killer_ok_from [] None (tr_of c)).
+Definition monitor_c09 (c : case) : bool :=
+  let '(st, tr, r, av) := snd c in
+  negb (fin c) || (one_termination tr && result_ok (nchars_of (fst c)) (Z.of_nat (length (c_units (fst c)))) tr r av).
+Definition monitor_c11 (c : case) : bool := negb (fin c) || decision_ok (fst c) (tr_of c).
